@@ -1051,7 +1051,9 @@ func streamCodec(g *core.G) {
 		g.Emit(o, a...)
 	}
 	// decoding texts: documents with unknown fields, colliding names, bad values
-	extra := []string{"X-Unknown: keep me", "Epoch: 3", "Revision: 9", "Values: x", "Order: a b", "ABI: q", "CPU: z", "Paragraph: p", "A: inner", "B: 7", "Inner: x", "Skipped: s", "M: 1"}
+	extra := []string{"X-Unknown: keep me", "Epoch: 3", "Revision: 9", "Values: x", "Order: a b", "ABI: q", "CPU: z", "Paragraph: p", "A: inner", "B: 7", "Inner: x", "Skipped: s", "M: 1",
+		// fields that are present and empty (a template's "Uploaders:", "Built-Using:" left blank)
+		"X-Empty:", "Uploaders:", "Built-Using: ", "X-Blank:\t"}
 	for i := 0; i < n; i++ {
 		typ := r.Pick(probes)
 		t := codecTypes[typ]
